@@ -37,5 +37,14 @@ CHECKS = {
         note="Spellings outside the statement's list are not generated (\\u in bytes, surrogates, raw CR, raw literal with backslash before a quote).",
         design_ref="DESIGN.md §4 C07",
     ),
+    "C15": dict(
+        technique="property-based testing (Hypothesis): JSON round trip under type-strict equality + path-navigation differential against plain Python",
+        category="exploration",
+        text="Generated recursive JSON documents: exact-class kind map, encoder/decoder round trip with True!=1, 3!=3.0, -0.0!=0.0, every path "
+             "navigated in CEL (.field, [\"key\"], [i]) under both runners vs the same path in Python; timestamp/duration/bytes encodings vs "
+             "independent RFC 3339 / seconds / base64 formatters.",
+        note="Trusts the stdlib json module for parsing the encoder's output; whole-second timestamps/durations only in the encoding part.",
+        design_ref="DESIGN.md §4 C15",
+    ),
 }
 NOT_APPLICABLE = {}
